@@ -590,3 +590,158 @@ def r6(cx):
 
 
 RS.explanation += ' The read built-in drains its line after a decoding error (R6).'
+
+
+# ---------------------------------------------------------------------------------------
+# C18.R7 - a descriptor line reader ends a line only at the newline / at end of input, and decodes the line once
+# (seed C18-a: a 4096-byte cap in FdReader2::next_line handed a long line to the lexer in separately decoded pieces)
+NEXT_LINE_IMPL = re.compile(r' as yash_env::input::Input>::next_line$')
+UTF8_DECODE = re.compile(r'(^|::)(from_utf8(_lossy|_lossy_owned|_unchecked|_mut|_unchecked_mut)?|utf8_chunks)$')
+FROM_MUT = re.compile(r'^core::slice::(raw::)?from_mut$')
+
+
+def _read_byte_local(body, du, rt):
+    """The u8 local behind the slice::from_mut(&mut byte) buffer of a Read::read call (None: not that shape)."""
+    src = Q.value_source(body, du, rt['a'][-1])
+    if src is None or not Q.callee_is(src, [FROM_MUT]):
+        return None
+    org = du.origin(src['a'][0])
+    if org['k'] != 'ref':
+        return None
+    pl = du.deref_origin(org['pl'])
+    if Q.is_plain(pl) and body.locals[pl['l']].get('ty') == 'u8':
+        return pl['l']
+    return None
+
+
+def _zero_count_edges(F, body, du):
+    """Switch edges taken exactly when the count returned by Read::read is 0 (`Ok(0)` pattern, `count == 0`, `count != 0` false)."""
+    def pred(org, lab):
+        if org['k'] == 'binop' and org['rv']['op'] in ('Eq', 'Ne') and lab[0] == 'bool':
+            ops = [org['rv']['a'], org['rv']['b']]
+            consts = [o for o in ops if 'c' in o and str(o['c']).split('_')[0] == '0']
+            others = [o for o in ops if 'cp' in o or 'mv' in o]
+            if len(consts) != 1 or len(others) != 1:
+                return False
+            src = Q.value_source(body, du, others[0])
+            if src is None or not Q.callee_is(src, READ):
+                return False
+            return lab[1] is (org['rv']['op'] == 'Eq')
+        return lab == ('int', 0) and org['k'] == 'place' and \
+            any(isinstance(e, dict) and e.get('v') == 'Ok' for e in (org['pl'].get('p') or [])) and _from_read(body, du, org['pl'])
+    return {(b, tgt) for b, tgt, lab, org in _switch_edges(F, body, du, pred)}
+
+
+def _newline_edges(F, body, du, byte_local):
+    """Switch edges taken exactly when the byte just read is the newline: `byte == 10` true, `byte != 10` false, `match byte { 10 => .. }`."""
+    out = set()
+
+    def pred(org, lab):
+        if org['k'] != 'binop' or org['rv']['op'] not in ('Eq', 'Ne') or lab[0] != 'bool':
+            return False
+        ops = [org['rv']['a'], org['rv']['b']]
+        consts = [o for o in ops if 'c' in o]
+        locs = [Q.operand_local(o) for o in ops if 'c' not in o]
+        if len(consts) != 1 or not str(consts[0]['c']).startswith('10_u8'):
+            return False
+        if not locs or locs[0] is None or _base_local(du, locs[0]) != byte_local:
+            return False
+        return lab[1] is (org['rv']['op'] == 'Eq')
+    for b, tgt, lab, org in _switch_edges(F, body, du, pred):
+        out.add((b, tgt))
+    for b in sorted(body.live_blocks()):
+        t = body.term(b)
+        if t['k'] != 'switch' or t.get('dty') != 'u8':
+            continue
+        l = Q.operand_local(t['d'])
+        if l is None or _base_local(du, l) != byte_local:
+            continue
+        others = {x for v, x in t['ts'] if v != 10} | {t['else']}
+        for v, tgt in t['ts']:
+            if v == 10 and tgt not in others:
+                out.add((b, tgt))
+    return out
+
+
+def _describe_edge(F, body, du, u, v):
+    ec = Q.edge_condition(F, body, du, u)
+    if ec is None:
+        return 'bb%d->bb%d' % (u, v)
+    org, labels = ec
+    what = org['k']
+    if org['k'] == 'binop':
+        what = '%s(%s, %s)' % (org['rv']['op'], Q.operand_name(body, du, org['rv']['a']) or pp.operand(body, org['rv']['a']),
+                               Q.operand_name(body, du, org['rv']['b']) or pp.operand(body, org['rv']['b']))
+    elif org['k'] == 'call':
+        what = pp.callee(org['t'])
+    return '%s is %s' % (what, '/'.join(str(x[-1]) for x in labels.get(v, [])))
+
+
+@RS.rule('C18.R7', 'K-PASS', 'a descriptor line reader ends a line only at the newline byte or at end of input (never at a length, capacity or '
+         'count limit), and decodes UTF-8 after the last read: every path from Read::read to the UTF-8 conversion / to the Ok(line) result '
+         'takes the `byte == newline` edge or the zero-count edge, and no read follows a conversion')
+def r7(cx):
+    F = cx.F
+    roots = sorted(r for r in F.by_root if NEXT_LINE_IMPL.search(r))
+    cx.require(roots, 'no implementation of yash_env::input::Input::next_line found')
+    readers = [r for r in roots if any(Q.find_calls(b, READ) for b in F.logical(r))]
+    cx.require(FDR in readers, 'FdReader2::next_line is not among the Input::next_line implementations that call Read::read')
+    cx.floor(len(readers), 1, 'Input::next_line implementations that read a descriptor')
+    for root in readers:
+        body = F.inlined(F.main_body(root))      # a decoding / byte-reading step extracted into a private helper is seen in place
+        cx.fn(body.fn)
+        du = Q.DefUse(body)
+        reads = Q.find_calls(body, READ)
+        cx.require(reads, '%s: Read::read is not called from the body of the reader itself (shape changed: review)' % root)
+        # where the line is produced: UTF-8 conversions (also inside closures built here) and Ok(..) results
+        decode = [(b, t, pp.callee(t)) for b, t in body.calls() if Q.callee_is(t, [UTF8_DECODE])]
+        inner = {x.fn: [pp.callee(t) for _, t in x.calls() if Q.callee_is(t, [UTF8_DECODE])]
+                 for x in F.logical(root) if x.fn not in (body.fn, root)}
+        for b, j, s in body.stmts():
+            if s['k'] == 'assign' and s['rv']['k'] == 'agg' and s['rv'].get('ak') == 'closure' and inner.get(s['rv'].get('def')):
+                decode.append((b, s, 'closure calling ' + inner[s['rv']['def']][0]))
+        oks = [(b, s) for b, j, s in Q.find_aggregates(body, 'core::result::Result', 'Ok')]
+        cx.require(decode, '%s: no UTF-8 conversion (String::from_utf8 / from_utf8_lossy / str::from_utf8 ...) is visible in the reader: '
+                   'how the bytes of a line become text can not be decided (review)' % root)
+        goals = {b for b, _, _ in decode} | {b for b, _ in oks}
+        for rb, rt in reads:
+            byte_local = _read_byte_local(body, du, rt)
+            if byte_local is None:
+                cx.site('%s: Read::read at %s: the buffer is not slice::from_mut(&mut u8) (reported by R1/R1b); line ends not examined' % (root, body.loc(rt)))
+                continue
+            ends = _newline_edges(F, body, du, byte_local) | _zero_count_edges(F, body, du)
+            cx.site('%s: Read::read at %s; line-end edges (newline byte / zero count): %s; line produced at %s'
+                    % (root, body.loc(rt), sorted('bb%d->bb%d' % e for e in ends), sorted({body.loc(x) for _, x, _ in decode} | {body.loc(s) for _, s in oks})))
+            reach = set()
+            for s in body.succ(rb):
+                reach |= _reach_bool(body, s, removed_edges=ends)
+            hit = sorted(reach & goals)
+            if hit:
+                p = None
+                for s in body.succ(rb):
+                    p = p or body.shortest_path(s, set(hit), removed_edges=ends)
+                loop = {x for x in reach if rb in body.reachable(x)}
+                exit_edge = None
+                for u, v in zip(p or [], (p or [])[1:]):
+                    if u in loop and v not in loop:
+                        exit_edge = (u, v)
+                        break
+                how = _describe_edge(F, body, du, *exit_edge) if exit_edge else 'a path'
+                cx.violation(root, 'line-ended-without-newline',
+                             'the reader can hand over a line although the byte just read is not the newline and the input has not ended (%s): '
+                             'a physical line is then passed to the lexer in pieces, each converted from UTF-8 on its own, so a multi-byte '
+                             'character that straddles the cut becomes two U+FFFD and the command executed depends on where the cut falls '
+                             '(the same script given with -c runs a different command)' % how,
+                             loc=body.loc(body.term(exit_edge[0])) if exit_edge else body.loc(rt),
+                             path=Q.render_path(body, [rb] + p) if p else None)
+            # decoded once, after the last read
+            for b, x, name in decode:
+                if rb in body.reachable(b):
+                    cx.violation(root, 'decoded-before-last-read',
+                                 'bytes are converted from UTF-8 (%s) and the descriptor is read again afterwards: the line is decoded in '
+                                 'pieces, so a multi-byte character cut by a piece boundary is replaced by U+FFFD' % name, loc=body.loc(x))
+    cx.sample({'readers': readers, 'other Input::next_line implementations (no descriptor read)': [r for r in roots if r not in readers]})
+
+
+RS.explanation += (' A descriptor line reader (Input::next_line implementation calling Read::read) produces its line only through the '
+                   'newline-byte edge or the zero-count edge and never reads after a UTF-8 conversion, so a line is decoded whole (R7).')
